@@ -52,6 +52,26 @@ func c03Gen(g *core.Gen) {
 			}
 		}
 	}
+	// damaged recovery files: every packet of every recovery file x {length field covers the next packet / the rest of
+	// the file / is 4 short, body, hash, magic byte hit}, alone and combined with every single data damage. Verify may
+	// refuse (error); a verdict must count exactly the blocks still intact in the files.
+	for _, cfg := range []scen.P2Config{
+		{Sizes: []int{11, 6}, Slice: 4, Blocks: 7, Class: "uniq"},
+		{Sizes: []int{20, 9}, Slice: 8, Blocks: 4, Class: "uniq", G: 2},
+	} {
+		set, err := scen.GetP2(cfg, g.Seed)
+		if err != nil {
+			continue
+		}
+		data := append([]scen.Dmg{{Op: "none"}}, scen.DataMenu(cfg.Sizes, cfg.Slice, nRecFiles(cfg.Blocks), false)...)
+		for v := 0; v < len(set.RecFiles); v++ {
+			for _, pd := range set.PktRecMenu(v) {
+				for _, dd := range data {
+					g.Emit(&p2Case{Cfg: cfg, Dmg: []scen.Dmg{pd, dd}, G: 1, RecDamaged: true})
+				}
+			}
+		}
+	}
 	for _, lc := range c01LargeConfigs(g.Thorough()) {
 		cfg := lc
 		for f := range cfg.Sizes {
@@ -68,6 +88,7 @@ func init() {
 		Level: "model_checking",
 		Rule: "bounded-exhaustive scenarios as C01 (all combinations of <=D operators from the full damage menu around several default sets, 5 content classes, core size grid, large sets); " +
 			"the menu contains every operator that leaves all slices findable while files are wrong (insert/cut at every offset, swap, copy, append, zero-append, truncate trailing zeros). " +
+			"plus damaged recovery files: every packet of every recovery file x 6 kinds of header / body damage (length field extended over the next packet or the rest of the file, shortened; body, hash, magic byte), alone and with every single data damage - there Verify may refuse with an error, but a verdict must count exactly the recovery blocks a magic-resynchronising reference scanner finds intact. " +
 			"Oracle: clean => all files present and identical; usable <= slices whose content occurs (brute force); unusable <= slices of damaged files; sums; parity count = distinct intact blocks beside index; RepairPossible consistent. non-trivial = scenario with >=1 damaged file",
 		Assumptions: []string{
 			"reference slice scan is brute force over every offset of every surviving protected file",
